@@ -213,6 +213,50 @@ theorem C06_timers_decl (ts : List Nat) (cmds : List Cmd) (t : Nat) :
           have : t ≠ t' := fun e => hc.2 (by rw [e])
           simp [applyTimerCmd, mem_srem, this]
 
+/-- declarative reading of the choice fold: after the step the choices pending under key `k` are those of the
+last `choose_random(k, …)` command (none if that vector was empty = `remove_random`), or the old ones (minus the
+selected key) if no command mentions `k` -/
+theorem C06_random_decl (m : List (Nat × List Nat)) (cmds : List Cmd) (k : Nat) :
+    alookup k (cmds.foldl applyRandomCmd m) =
+      match (cmds.filterMap (fun c => match c with
+          | .chooseRandom k' cs => if k' = k then some cs else none
+          | _ => none)).getLast? with
+      | some cs => if cs.isEmpty then none else some cs
+      | none => alookup k m := by
+  induction cmds generalizing m with
+  | nil => simp
+  | cons c cs ih =>
+    rw [List.foldl_cons, ih, List.filterMap_cons]
+    cases c with
+    | send _ _ => simp [applyRandomCmd]
+    | setTimer _ => simp [applyRandomCmd]
+    | cancelTimer _ => simp [applyRandomCmd]
+    | chooseRandom k' ch =>
+      simp only [applyRandomCmd]
+      by_cases hk : k' = k
+      · subst hk
+        simp only [if_true, List.getLast?_cons]
+        cases hl : (cs.filterMap (fun c => match c with
+            | .chooseRandom k'' cs => if k'' = k' then some cs else none
+            | _ => none)).getLast? with
+        | some x => simp
+        | none =>
+          simp only [Option.getD_none]
+          by_cases he : ch.isEmpty = true
+          · simp [he, alookup_aremove]
+          · simp [he, alookup_ainsert]
+      · have hk' : ¬ k = k' := fun e => hk e.symm
+        simp only [hk, if_false]
+        cases hl : (cs.filterMap (fun c => match c with
+            | .chooseRandom k'' cs => if k'' = k then some cs else none
+            | _ => none)).getLast? with
+        | some x => simp
+        | none =>
+          simp only
+          by_cases he : ch.isEmpty = true
+          · simp [he, alookup_aremove, hk']
+          · simp [he, alookup_ainsert, hk']
+
 /-- **History**: the hook for received messages sees the delivered envelope first, then the hook for sent
 messages sees each sent envelope in emission order (a hook answering `None` leaves the history as it is). -/
 theorem C06_history {sys : ActorSys σ η} {st st' : St σ η} {a : Action} {i : Nat} {ev : Event} {s : σ}
